@@ -91,7 +91,7 @@ func envInt(k string, d int64) int64 {
 
 // Start begins a part.  The part name is the test function name.
 func Start(t testing.TB, property string) *Run {
-	r := &Run{t: t, start: time.Now(), only: -1, maxViol: 40, requires: map[string]int64{}}
+	r := &Run{t: t, start: time.Now(), only: -1, maxViol: 400, requires: map[string]int64{}}
 	r.sum.Property = property
 	r.sum.Part = strings.ReplaceAll(t.Name(), "/", "_")
 	r.sum.Seed = envInt("VERIF_SEED", 1)
@@ -116,6 +116,8 @@ func Start(t testing.TB, property string) *Run {
 			if n, err := strconv.Atoi(v[i+1:]); err == nil {
 				r.only = n
 			}
+		} else {
+			r.only = -2 // another part is being replayed: nothing is mine
 		}
 	}
 	os.MkdirAll(r.outDir, 0o755)
@@ -157,14 +159,14 @@ func (r *Run) TmpDir() string {
 
 // Mine tells whether case i belongs to this shard (and to the replay filter).
 func (r *Run) Mine(i int) bool {
-	if r.only >= 0 {
+	if r.only != -1 {
 		return i == r.only
 	}
 	return i%r.sum.Shards == r.sum.Shard
 }
 
 // Replaying tells whether a single case is being replayed.
-func (r *Run) Replaying() bool { return r.only >= 0 }
+func (r *Run) Replaying() bool { return r.only != -1 }
 
 // CaseRand returns a PRNG that is a pure function of (seed, part, i).
 func (r *Run) CaseRand(i int) *rand.Rand {
